@@ -1,0 +1,83 @@
+//! Verification hooks: expose the token list, the event list, the recorded sequence of parser-API operations and a
+//! way to build a tree from an event list. Compiled only with `--cfg emmyluals_emmylua_analyzer_rust_verif`.
+use std::cell::RefCell;
+
+use rowan::GreenNode;
+
+pub use crate::parser::MarkEvent;
+use crate::{
+    LuaSyntaxTree, LuaTreeBuilder,
+    kind::{LuaSyntaxKind, LuaTokenKind},
+    lexer::LuaTokenData,
+    text::SourceRange,
+};
+
+/// one call of the parser's token-pump / marker API, in program order
+#[derive(Debug, Clone, PartialEq, Eq)]
+pub enum VerifOp {
+    Init,
+    Bump,
+    SetTokenKind(LuaTokenKind),
+    Mark { position: usize, kind: LuaSyntaxKind },
+    SetKind { position: usize, kind: LuaSyntaxKind },
+    /// `Marker::complete`; when the node is not empty it is followed by the `PushNodeEnd` it performs
+    Complete { position: usize },
+    /// `push_node_end` (called by `complete`, and directly by the grammar's error recovery)
+    PushNodeEnd,
+    Undo { position: usize },
+    Precede { start: usize, position: usize, kind: LuaSyntaxKind },
+    /// `parse_comments` hands `count` tokens starting at token index `first` to the doc parser (doc enabled)
+    DocBegin { tokens: Vec<LuaTokenData> },
+    /// an `EatToken` pushed by the doc parser
+    DocEat { kind: LuaTokenKind, range: SourceRange },
+    DocEnd,
+}
+
+thread_local! {
+    static OPS: RefCell<Option<Vec<VerifOp>>> = const { RefCell::new(None) };
+}
+
+#[inline]
+pub(crate) fn rec(f: impl FnOnce() -> VerifOp) {
+    OPS.with(|o| {
+        if let Some(v) = o.borrow_mut().as_mut() {
+            v.push(f());
+        }
+    });
+}
+
+pub struct ParseTrace {
+    /// the lexer's output, before the parser retags any token
+    pub tokens: Vec<LuaTokenData>,
+    /// the parser's token list after parsing (kinds may have been rewritten by `set_current_token_kind`)
+    pub tokens_after: Vec<LuaTokenData>,
+    pub events: Vec<MarkEvent>,
+    pub mark_level: usize,
+    pub ops: Vec<VerifOp>,
+    pub tree: LuaSyntaxTree,
+}
+
+/// `LuaParser::parse` with its intermediate products recorded
+pub fn parse_trace(text: &str, config: crate::ParserConfig) -> ParseTrace {
+    OPS.with(|o| *o.borrow_mut() = Some(Vec::new()));
+    let r = std::panic::catch_unwind(std::panic::AssertUnwindSafe(|| crate::LuaParser::verif_parse_trace(text, config)));
+    let ops = OPS.with(|o| o.borrow_mut().take()).unwrap_or_default();
+    match r {
+        Ok((tokens, tokens_after, events, mark_level, tree)) => ParseTrace { tokens, tokens_after, events, mark_level, ops, tree },
+        Err(e) => std::panic::resume_unwind(e),
+    }
+}
+
+/// `LuaTreeBuilder::build` + `finish` on an arbitrary event list (no node cache)
+pub fn build_from_events(text: &str, events: Vec<MarkEvent>) -> GreenNode {
+    let mut builder = LuaTreeBuilder::new(text, events, None);
+    builder.build();
+    builder.finish()
+}
+
+/// the same with a shared node cache
+pub fn build_from_events_cached(text: &str, events: Vec<MarkEvent>, cache: &mut rowan::NodeCache) -> GreenNode {
+    let mut builder = LuaTreeBuilder::new(text, events, Some(cache));
+    builder.build();
+    builder.finish()
+}
